@@ -333,6 +333,15 @@ def namespace_sets(k):
         entry = "/c08d_%d_%d_entry.html" % (k, variant)
         T = {entry: '<%def name="outer()">' + "".join(defs) + "[" + "|".join(calls) + "]</%def>${outer()}"}
         sets.append({"templates": T, "entry": entry, "ctx": ctx, "expected": ["ok", "[" + "|".join(exp) + "]"]})
+    # nested defs whose argument defaults refer to the nested defs written before them: declared in the order of the text
+    for variant in range(2):
+        names = [["aa", "bb", "cc", "dd"], ["g%d" % i for i in range(7)]][variant]
+        defs = ['<%%def name="%s()">%s</%%def>' % (names[0], names[0].upper())]
+        for prev, n in zip(names, names[1:]):
+            defs.append('<%%def name="%s(p=%s)">${p()}.%s</%%def>' % (n, prev, n))
+        entry = "/c08o_%d_%d_entry.html" % (k, variant)
+        T = {entry: '<%def name="outer()">' + "".join(defs) + "[${%s()}]</%%def>${outer()}" % names[-1]}
+        sets.append({"templates": T, "entry": entry, "ctx": {}, "expected": ["ok", "[" + ".".join([names[0].upper()] + names[1:]) + "]"]})
     return sets
 
 
